@@ -698,16 +698,47 @@ impl<T: Smp> Slot<T> {
                 self.consumed = 0;
                 format!("ok | {} | a{},{},{}", getters(&self.inst), d.0, d.1, d.2)
             }
+            "bufs" => {
+                // shapes of the four allocate helpers (directly, or through `&dyn VecResampler`)
+                let dynamic = t.first().map(|s| *s == "dyn").unwrap_or(false);
+                let shape = |v: &Vec<Vec<T>>, want: usize| -> String {
+                    let lens: Vec<String> = v.iter().map(|c| c.len().to_string()).collect();
+                    let caps_ok = v.iter().all(|c| c.capacity() >= want);
+                    let zeros = v.iter().all(|c| c.iter().all(|x| x.bits() == T::of64(0.0).bits()));
+                    format!("{}:{}:{}", lens.join(","), caps_ok as u8, zeros as u8)
+                };
+                let v = with_inst!(&self.inst, r => {
+                    if dynamic {
+                        let d: &dyn VecResampler<T> = r;
+                        let (im, om) = (d.input_frames_max(), d.output_frames_max());
+                        format!("{} {} {} {}", shape(&d.input_buffer_allocate(false), im), shape(&d.input_buffer_allocate(true), im),
+                            shape(&d.output_buffer_allocate(false), om), shape(&d.output_buffer_allocate(true), om))
+                    } else {
+                        let (im, om) = (Resampler::input_frames_max(r), Resampler::output_frames_max(r));
+                        format!("{} {} {} {}", shape(&Resampler::input_buffer_allocate(r, false), im),
+                            shape(&Resampler::input_buffer_allocate(r, true), im),
+                            shape(&Resampler::output_buffer_allocate(r, false), om),
+                            shape(&Resampler::output_buffer_allocate(r, true), om))
+                    }
+                });
+                format!("ok b {} | {} | a+", v, getters(&self.inst))
+            }
             "get" => {
+                let dynamic = t.first().map(|s| *s == "dyn").unwrap_or(false);
                 let before = alloc_count::snap();
-                let v = with_inst!(&self.inst, r => (
+                let v = with_inst!(&self.inst, r => {
+                    if dynamic {
+                        let d: &dyn VecResampler<T> = r;
+                        (d.input_frames_next(), d.input_frames_max(), d.output_frames_next(), d.output_frames_max(),
+                         d.output_delay(), d.nbr_channels())
+                    } else {(
                     Resampler::input_frames_next(r),
                     Resampler::input_frames_max(r),
                     Resampler::output_frames_next(r),
                     Resampler::output_frames_max(r),
                     Resampler::output_delay(r),
                     Resampler::nbr_channels(r)
-                ));
+                )}});
                 let d = alloc_count::snap().since(before);
                 format!(
                     "ok | g {} {} {} {} {} {} | a{},{},{}",
